@@ -194,3 +194,9 @@ Print Assumptions source_tables_wellformed.
 Theorem source_tables_documented : documented_meaning gen_cfg = true.
 Proof. exact gen_documented_meaning. Qed.
 Print Assumptions source_tables_documented.
+
+(* the correspondence run evaluates both single-literal variants with one parse: exactly the two model answers *)
+Theorem correspondence_shortcut_sound : forall cfg atoms ts,
+  select_pair cfg atoms ts = (select_tokens cfg false atoms ts, select_tokens cfg true atoms ts).
+Proof. exact select_pair_correct. Qed.
+Print Assumptions correspondence_shortcut_sound.
